@@ -7,7 +7,9 @@
  * delivery the handler may unregister this / another watch / the instance
  * (and frees the memory at once) or register a new watch.
  */
+#ifndef _GNU_SOURCE
 #define _GNU_SOURCE
+#endif
 #include <errno.h>
 #include <fcntl.h>
 #include <stdio.h>
